@@ -105,6 +105,9 @@ def u3():
     out += [St(STR, A_DS, S_D1), St(Sc("i8"), STR, A_DD, STR), St(A_DD, STR, S_D2, Sc("f64"), A_DS2)]
     # N-D arrays of dynamic items with cyclic axis orders *nested* inside other objects: they are reached through views only
     cyc = [Arr(STR, (2, 3, 4), (1, 2, 0)), Arr(STR, (None, 3, None), (2, 0, 1)), Arr(S_D1, (2, 2, 2), (2, 0, 1)), Arr(A_DS, (2, None, 2), (1, 2, 0))]
+    # items large enough for strides beyond the range of small integer kinds (lengths / indices given as numpy integers)
+    big = Arr(Sc("f64"), (3, 3), (0, 1))
+    out += [Arr(big, (None, None), (0, 1)), Arr(big, (None, None), (1, 0)), St(Sc("i8"), Arr(big, (None,))), Arr(St(Sc("f64"), Sc("f64"), Sc("i64"), Sc("f64"), Sc("f64"), Sc("u8")), (None, 2), (1, 0))]
     for a in cyc:
         out.append(St(Sc("i8"), a))
         out.append(St(a, STR))
